@@ -4,6 +4,7 @@ package yubiattest
 //vsym:entry H16_pubkey
 //vsym:entry H16_sigalg
 //vsym:entry H16_fields
+//vsym:entry H16_two_certificates
 //vsym:model encoding/asn1.Unmarshal m16pUnmarshal
 //vsym:model-re ^\(\*crypto/ecdh\.nistCurve\[.*\]\)\.NewPublicKey(\[.*\])?$ m16pNewPublicKey
 //vsym:model (*crypto/ecdh.PublicKey).Bytes m16pBytes
@@ -15,9 +16,10 @@ package yubiattest
 //vsym:model crypto/elliptic.P384 m16pP384
 //vsym:model crypto/elliptic.P521 m16pP521
 //vsym:replay none
-//vsym:expect-cover C16.pk.rsa-ok C16.pk.rsa-bad-modulus C16.pk.rsa-bad-exponent C16.pk.rsa-trailing C16.pk.p256 C16.pk.p384 C16.pk.p521 C16.pk.unknown-curve C16.sa.table C16.sa.pss-ok C16.sa.pss-refused C16.f.ok C16.f.trailing C16.f.undecodable C16.f.bad-name C16.f.bad-extension C16.f.unhandled-critical C16.f.key-usage C16.f.basic-constraints C16.f.padded-signature
+//vsym:expect-cover C16.pk.rsa-ok C16.pk.rsa-bad-modulus C16.pk.rsa-bad-exponent C16.pk.rsa-trailing C16.pk.p256 C16.pk.p384 C16.pk.p521 C16.pk.unknown-curve C16.sa.table C16.sa.pss-ok C16.sa.pss-refused C16.f.ok C16.f.trailing C16.f.undecodable C16.f.bad-name C16.f.bad-extension C16.f.unhandled-critical C16.f.key-usage C16.f.basic-constraints C16.f.padded-signature C16.two-certificates
 //vsym:bound H16_pubkey: RSA: modulus sign and exponent symbolic, trailing data or not, decoder failure; ECDSA: named curve P-256 / P-384 / P-521 / unknown, trailing parameter data or not, every byte of the uncompressed point symbolic (lengths 65 / 97 / 133 per the ecdh contract), point rejected or not
 //vsym:bound H16_sigalg: algorithm OID any row of an independently written table or unknown; RSA-PSS parameters: hash OID SHA-256/384/512/other, NULL or other hash parameters, MGF OID MGF1 or other, MGF hash equal or not, salt length and trailer field symbolic
+//vsym:bound H16_two_certificates: two certificates parsed in sequence in one process, exactly one of them with an extension block (the device-serial extension)
 //vsym:bound H16_fields: ParseCertificate on a decoded certificate structure with symbolic raw byte strings (1 byte each), version, validity instants, a signature bit string of 1..3 symbolic bytes with 0..7 padding bits, an RSA key, every signature-algorithm row, and 0..2 extensions drawn from key usage (all 16 bits symbolic), basic constraints, subject / authority key identifier, extended key usage (one known, one unknown purpose), policies, a vendor extension and an unknown critical extension; decoder failure or trailing data at the top level, in a name or in an extension value
 //vsym:assume encoding/asn1 and crypto/ecdh are modelled by their contracts (the reflection-driven decoder and the curve arithmetic are not executed): Unmarshal fills the destination with harness-chosen values or fails; NewPublicKey returns a key whose Bytes() is the validated uncompressed point; field-by-field agreement with crypto/x509 on whole certificates is not decided
 
@@ -87,7 +89,19 @@ func m16pUnmarshal(b []byte, val interface{}) ([]byte, error) {
 		if w16Top.fail {
 			return nil, errors.New("model: asn1 error")
 		}
+		// a field that is OPTIONAL in the ASN.1 definition and does not occur
+		// in the encoding is left as the destination had it
+		keepExts, keepUID, keepSUID := v.TBSCertificate.Extensions, v.TBSCertificate.UniqueId, v.TBSCertificate.SubjectUniqueId
 		*v = *w16Top.cert
+		if w16Top.cert.TBSCertificate.Extensions == nil {
+			v.TBSCertificate.Extensions = keepExts
+		}
+		if w16Top.cert.TBSCertificate.UniqueId.BitLength == 0 {
+			v.TBSCertificate.UniqueId = keepUID
+		}
+		if w16Top.cert.TBSCertificate.SubjectUniqueId.BitLength == 0 {
+			v.TBSCertificate.SubjectUniqueId = keepSUID
+		}
 		if w16Top.trailing {
 			return []byte{0}, nil
 		}
@@ -379,6 +393,52 @@ func s16RightAlign(b []byte, bitLength int) []byte {
 		}
 	}
 	return out
+}
+
+// H16_two_certificates: two certificates parsed one after the other in one
+// process: the second result is that of the second certificate alone.
+func H16_two_certificates() {
+	mk := func(withExt bool, tag byte) *certificate {
+		in := &certificate{}
+		in.Raw = asn1.RawContent{tag}
+		in.TBSCertificate.Raw = asn1.RawContent{tag}
+		in.TBSCertificate.PublicKey.Raw = asn1.RawContent{tag}
+		in.TBSCertificate.Subject.FullBytes = []byte{0x30, 's'}
+		in.TBSCertificate.Issuer.FullBytes = []byte{0x30, 'i'}
+		in.TBSCertificate.Version = 2
+		in.TBSCertificate.SerialNumber = new(big.Int)
+		in.TBSCertificate.SignatureAlgorithm = pkix.AlgorithmIdentifier{Algorithm: s16SigAlgs[4].oid}
+		in.SignatureAlgorithm = in.TBSCertificate.SignatureAlgorithm
+		in.SignatureValue = asn1.BitString{Bytes: []byte{tag, 1}, BitLength: 16}
+		in.TBSCertificate.PublicKey.Algorithm.Algorithm = s16OIDRSA
+		in.TBSCertificate.PublicKey.PublicKey = asn1.BitString{Bytes: []byte{1, 2}, BitLength: 16}
+		if withExt {
+			in.TBSCertificate.Extensions = []pkix.Extension{{Id: asn1.ObjectIdentifier{1, 3, 6, 1, 4, 1, 41482, 3, 7}, Value: []byte{2, 3, 1, 2, 3}}}
+		}
+		return in
+	}
+	w16RSA.n, w16RSA.e, w16Sign = new(big.Int), 65537, 1
+	firstHasExt := vChoose(2, "first-has-extensions") == 1
+	w16Top.cert = mk(firstHasExt, 1)
+	o1, e1 := ParseCertificate([]byte{0x30, 0})
+	vAssert(e1 == nil && o1 != nil, "C16.well-formed-certificate-accepted")
+	w16Top.cert = mk(!firstHasExt, 2)
+	o2, e2 := ParseCertificate([]byte{0x30, 0})
+	vAssert(e2 == nil && o2 != nil, "C16.well-formed-certificate-accepted")
+	if e1 != nil || e2 != nil || o1 == nil || o2 == nil {
+		return
+	}
+	n1, n2 := 0, 1
+	if firstHasExt {
+		n1, n2 = 1, 0
+	}
+	vAssert(len(o1.Extensions) == n1 && len(o2.Extensions) == n2, "C16.extension-list-is-that-of-this-certificate")
+	vAssert(len(o2.Raw) == 1 && o2.Raw[0] == 2 && len(o1.Raw) == 1 && o1.Raw[0] == 1, "C16.second-certificate-does-not-rewrite-the-first")
+	vAssert(len(o1.Signature) == 2 && o1.Signature[0] == 1 && len(o2.Signature) == 2 && o2.Signature[0] == 2, "C16.second-certificate-does-not-rewrite-the-first")
+	_, se1 := ModHex(o1)
+	_, se2 := ModHex(o2)
+	vAssert((se1 == nil) == (n1 == 1) && (se2 == nil) == (n2 == 1), "C16.serial-is-that-of-this-certificate")
+	vReach("C16.two-certificates")
 }
 
 func H16_fields() {
